@@ -168,7 +168,35 @@ def r16_4(ctx):
     ctx.ob("R16.4", "duplicate-path-does-not-store", ok, "the duplicate path stores nothing")
 
 
+def r16_6(ctx):
+    """NamespaceMap::insert_ns: every declaration that is accepted (answer Ok) and is not the reserved xml prefix is RECORDED in the
+    element's own scope: a non-empty value as the binding Some(ns), an empty value as the un-binding entry None (which find_uri
+    treats as 'this scope decides: not bound') - never by removing an entry, which would let an ancestor's binding show through"""
+    key, pcs = nfq.cells(ctx, TB, "NamespaceMap::insert_ns")
+    bad = None
+    k = 0
+    for pc in nfq.feasible(pcs):
+        if not str(pc["ret"]).startswith("Ok("):
+            continue
+        g = pc["guards"]
+        if any(v and 'matches "xml"' in x for x, v in g.items()):
+            continue  # the reserved xml prefix: accepted, nothing to record
+        k += 1
+        empty = gval(g, "p1.value.is_empty()")
+        ins = [args for a, args in pc["actions"] if a == "self.scope.insert"]
+        other = [a for a, _ in pc["actions"] if a.startswith("self.scope.") and a not in ("self.scope.insert", "self.scope.contains_key", "self.scope.get")]
+        if other or len(ins) != 1:
+            bad = "an accepted declaration is not recorded by exactly one insert into the scope (%s): an empty declaration that only removes an entry does not un-bind what an ancestor bound" % (other or "no insert")
+        elif empty is True and str(ins[0][1]) != "None":
+            bad = "an empty declaration records %s, not the un-binding entry None" % ins[0][1]
+        elif empty is False and not str(ins[0][1]).startswith("Some("):
+            bad = "a non-empty declaration records %s, not a binding Some(ns)" % ins[0][1]
+    ctx.ob("R16.6", "declarations-are-recorded-in-the-own-scope", bad is None and k >= 5, bad or "%d accepted declarations, each one insert: Some(ns) or the un-binding None" % k, "xml5ever tree_builder NamespaceMap::insert_ns")
+
+
 def run(ctx):
+    ctx.rule("R16.6", "insert_ns records every accepted declaration in the element's own scope (Some(ns), or None for an empty value)")
+    ctx.guard("R16.6", "insert_ns", lambda: r16_6(ctx))
     ctx.rule("R16.1", "over phase x kind x is_script: scope push == open-element push; pop() removes both together and is the only remover")
     ctx.rule("R16.2", "find_uri innermost-first, first binding decides; only prefixed attributes are resolved")
     ctx.rule("R16.3", "process_namespaces: declarations, then attribute names, then the tag name")
